@@ -432,9 +432,10 @@ pub fn report_meta(_prop: &str, tier: Tier) -> (String, Value, Vec<String>) {
     let b = bound_for(tier);
     let hss = harnesses();
     let rule = format!(
-        "for each of {} harnesses (2-3 real threads, 1-2 Handle operations each, on one real store with forced key collisions) every schedule with at most {} preemptions (one more for the two-thread harnesses) is executed under a baton scheduler whose scheduling points are every interposed system call on a store file and every hook point before an access to shared state (writer mutex, KeyDir shard, reader pool, spin loop); depth-first search with replay by prefix; every execution runs to completion and is judged (no panic / error / deadlock / livelock, linearizable against the map model, final reads agree, pool restored). A schedule is distinct+non-trivial by (harness, outcome, thread order).",
+        "for each of {} harnesses (2-3 real threads, 1-2 Handle operations each, on one real store with forced key collisions) every schedule with at most {} preemptions (one more for the two-thread harnesses) is executed under a baton scheduler whose scheduling points are every interposed system call on a store file and every hook point before an access to shared state (writer mutex, KeyDir shard, reader pool, spin loop); depth-first search with replay by prefix; every execution runs to completion and is judged (no panic / error / deadlock / livelock, linearizable against the map model, final reads agree, pool restored). A schedule is distinct+non-trivial by (harness, outcome, thread order). || {}",
         hss.len(),
-        b
+        b,
+        crate::e3b::describe(tier)
     );
     let bounds = json!({"preemption_bound": b, "harnesses": hss.iter().map(|h| json!({"name": h.name, "preload": h.preload.iter().map(|o| o.show()).collect::<Vec<_>>(), "threads": h.progs.iter().map(|p| p.iter().map(|o| o.show()).collect::<Vec<_>>()).collect::<Vec<_>>(), "max_file_size": h.mfs, "concurrency": h.conc, "readers_cache_size": h.cache})).collect::<Vec<_>>()});
     let assumptions = vec![
